@@ -59,13 +59,13 @@ func (g *vGraph) GetEdge(key string, load bool) *gdbi.Edge {
 	return nil
 }
 
-func (g *vGraph) AddVertex(vertex []*gdbi.Vertex) error          { return nil }
-func (g *vGraph) AddEdge(edge []*gdbi.Edge) error                { return nil }
-func (g *vGraph) BulkAdd(c <-chan *gdbi.GraphElement) error      { return nil }
-func (g *vGraph) DelVertex(key string) error                     { return nil }
-func (g *vGraph) DelEdge(key string) error                       { return nil }
-func (g *vGraph) ListVertexLabels() ([]string, error)            { return nil, nil }
-func (g *vGraph) ListEdgeLabels() ([]string, error)              { return nil, nil }
+func (g *vGraph) AddVertex(vertex []*gdbi.Vertex) error           { return nil }
+func (g *vGraph) AddEdge(edge []*gdbi.Edge) error                 { return nil }
+func (g *vGraph) BulkAdd(c <-chan *gdbi.GraphElement) error       { return nil }
+func (g *vGraph) DelVertex(key string) error                      { return nil }
+func (g *vGraph) DelEdge(key string) error                        { return nil }
+func (g *vGraph) ListVertexLabels() ([]string, error)             { return nil, nil }
+func (g *vGraph) ListEdgeLabels() ([]string, error)               { return nil, nil }
 func (g *vGraph) AddVertexIndex(label string, field string) error { return nil }
 func (g *vGraph) DeleteVertexIndex(label string, field string) error {
 	return nil
